@@ -1,6 +1,7 @@
 import XotModel.Props.C14
 open XotModel.Props
 #print axioms C14_cdata_literals
+#print axioms C14_cdata_cr_reference
 #print axioms C14_cdata
 #print axioms C14_gt_tables
 #print axioms C14_gt
